@@ -69,11 +69,12 @@ def scan_trusted(unit):
 MARKER_ONLY = {'C17'}
 
 
-def run_unit(uname, seed=None, rlimit=None):
+def run_unit(uname, seed=None, rlimit=None, pid=''):
     t0 = time.time()
     r = {'unit': uname}
     try:
-        sub = ('s%d' % seed) if seed is not None else ''
+        # one build directory per property (and per solver configuration): checks of different properties may run concurrently
+        sub = os.path.join(pid, ('s%d' % seed) if seed is not None else '')
         unit, res = build_and_run(uname, canary=False, seed=seed, rlimit=rlimit, subdir=sub)
         cunit, cres = build_and_run(uname, canary=True, seed=seed, rlimit=rlimit, subdir=sub)
         r.update(unit=unit, res=res, cunit=cunit, cres=cres)
@@ -112,7 +113,7 @@ def main(argv=None):
         futs = []
         for u in unames:
             for (sd, rl) in configs:
-                futs.append(ex.submit(run_unit, u, sd, rl))
+                futs.append(ex.submit(run_unit, u, sd, rl, pid))
         for f in futs:
             runs.append(f.result())
 
